@@ -31,6 +31,13 @@ fn balance_is_sum_of_unspent() {
                     s.generate_utxoset_key();
                     w.add_slip(s.block_id, s.tx_ordinal, &s, true, None);
                     trace.push(format!("add({:?},{})", s.slip_type, s.amount));
+                    if rng.below(3) == 0 {
+                        // the same output reported again (e.g. the block is processed twice): must change nothing
+                        let bal = w.get_available_balance();
+                        w.add_slip(s.block_id, s.tx_ordinal, &s, true, None);
+                        trace.push("add(again)".into());
+                        if w.get_available_balance() != bal { witness(format!("run {}: re-adding a slip the wallet already knows changed the balance from {} to {}: {:?}", run, bal, w.get_available_balance(), trace)); }
+                    }
                     known.push(s);
                 }
                 2 => { if !known.is_empty() { let k = rng.below(known.len() as u64) as usize; let s = known.remove(k); w.delete_slip(&s, None); trace.push(format!("delete({})", s.amount)); } }
